@@ -139,6 +139,9 @@ def get_fleur_structure(cell, speci, N, restlines):
     specilong = list(
         itertools.chain.from_iterable(itertools.repeat(x, N) for x in speci)
     )
+    # Atomic positions are sorted by symbols above. The species identifiers
+    # have to follow the same permutation to stay with their atoms.
+    specilong = [specilong[i] for i in sort_list]
     lines = restlines[0] + "\n"
     lines += ((" %21.16f" * 3 + "\n") * 3) % tuple(lattice.ravel())
     lines += "1.0 \n"
